@@ -32,10 +32,12 @@ def main():
     ok = True
     try:
         def demo():
-            dst = os.path.join(d, 'seed_demo.py')
-            shutil.copy(a.demo, dst)
-            r = subprocess.run(['/venv/bin/python', 'seed_demo.py'], cwd=d, stdout=subprocess.PIPE, stderr=subprocess.STDOUT, text=True,
-                               env=dict(os.environ, PYTHONDONTWRITEBYTECODE='1'), timeout=600)
+            name = os.path.basename(os.path.dirname(os.path.abspath(a.demo))) or 'seed'
+            sub = os.path.join(d, 'seed_out', name)
+            os.makedirs(sub, exist_ok=True)
+            shutil.copy(a.demo, os.path.join(sub, 'demo.py'))
+            r = subprocess.run(['/venv/bin/python', os.path.join('seed_out', name, 'demo.py')], cwd=d, stdout=subprocess.PIPE, stderr=subprocess.STDOUT, text=True,
+                               env=dict(os.environ, PYTHONDONTWRITEBYTECODE='1', PYTHONPATH=d), timeout=600)
             return r.returncode
         if a.demo:
             print('demo without patch: exit %d' % demo())
